@@ -75,6 +75,12 @@ var specs = map[string]*PropSpec{
 		StepKeys:   []string{"data_events"},
 		Exhaustive: "single split points (payload <= 64 bytes) and two-point splits (<= 24 bytes) of the one-chunk form; zero-length chunk positions of a drawn chunking",
 	},
+	"C16": {
+		Level: "exploration", QuickRuns: 24000, ThorRuns: 800000, QuickCap: 150 * time.Second, ThorCap: 25 * time.Minute, QuickWD: 10000, ThorWD: 30000,
+		Rule: "one run = one long-lived instance (CBE/CTE marshaler, unmarshaler, encoder, decoder incl. universal, or rules validator with Reset) receiving a drawn history of 2-6 (thorough: 2-12) operations: valid values/documents/streams; unsupported-kind values (alone, nested, behind an interface, the same value repeated); corrupted or truncated documents; limit violations under small drawn limits (incl. cumulative size over MaxDocumentSizeBytes); an I/O fault at a drawn point inside the operation; a producer abort after a drawn event followed by reset. Reference model per operation: a FRESH instance with the same configuration and identical simulated reader/writer plans; compared: bytes written (incl. the prefix before a failure), events forwarded, value, err==nil, rejecting event index; a hang of the reused instance is a deadlock/livelock violation. Non-trivial = any operation after the first; distinct = hash of (instance, config, history so far)",
+		Stubs: []string{"SimReader/SimWriter with fault plans", "producer abort (event-stream cut)", "recording receiver"}, Real: commonReal,
+		StepKeys: []string{"operations", "reader_calls", "writer_calls"},
+	},
 	"C23": {
 		Level: "exploration", QuickRuns: 60000, ThorRuns: 1500000, QuickCap: 150 * time.Second, ThorCap: 25 * time.Minute, QuickWD: 10000, ThorWD: 30000,
 		Rule: "one run = one generated rules-valid event stream (array-heavy) reduced to chunking-independent items; reference = every array delivered as one whole-array event to a fresh CTE encoder (optionally behind the real validator). Variants of the same data: one chunk + one data event; drawn re-chunkings at legal chunk boundaries with each chunk's bytes split at drawn positions (element-aligned in half of the variants, arbitrary - inside elements and multi-byte characters - in the other half), zero-length chunks; one byte per data event. Oracle: output text byte-identical to the reference. By-product for the second sentence: the reference text decodes and the decoded events encode to the same text. Non-trivial = the variant differs from the one-chunk/one-event delivery; distinct = hash of (stream, variant events)",
